@@ -1,5 +1,6 @@
 import PsV.Driver.Common
 import PsV.Driver.C04
+import PsV.Driver.C16
 import PsV.Driver.Eval
 open PsV.Driver
 
@@ -8,7 +9,8 @@ def stateless (f : List String → String) : IO Unit := do
 
 def drivers : List (String × IO Unit) :=
   [("C04", stateless C04.handle),
-   ("EV", Eval.run)]
+   ("EV", Eval.run),
+   ("C16", C16.run)]
 
 def main (args : List String) : IO UInt32 := do
   match args with
